@@ -35,6 +35,11 @@ SCENARIOS = {
     "C10": [("frame-search", ["frame-search"]), ("frame-deep", ["frame-deep", "200000"]), ("server-hostile", ["server-hostile"])] + [("server-search", ["server-search", str(i)]) for i in range(4)],
     "C06": [("frame-search", ["frame-search"]), ("conn-search", ["conn-search"]), ("client-search", ["client-search"])] + [("server-search", ["server-search", str(i)]) for i in range(24)],
 }
+# run by the QUICK tier too, after every obligation was discharged: properties whose statement quantifies over interleavings, which
+# no contract of a sequential verifier sees (e.g. how long a key-directory guard is held).  Bounded, never counted as proved.
+QUICK_SCENARIOS = {
+    "C04": [("store-concurrent", ["store-concurrent", str(i), "1500"]) for i in (3, 5, 7)],
+}
 KNOWN_SCENARIOS = {
     # scenarios that re-confirm an open known finding on the real code: (kind, argv)
     "C20": [("torn-append", ["store-torn-append"]),
@@ -66,16 +71,16 @@ def _run(binary, argv, timeout=900, prop=None):
         return -999, "", "timeout"
 
 
-def bounded_search(pid, known_kinds):
+def bounded_search(pid, known_kinds, quick=False):
     import witness
     binary = witness.build()
     runs = []
     findings = []       # concrete inputs that contradict pid and are not a listed known finding
     confirmed = []      # open known findings reproduced on the real code
     jobs = []
-    for name, argv in SCENARIOS.get(pid, []):
+    for name, argv in (QUICK_SCENARIOS if quick else SCENARIOS).get(pid, []):
         jobs.append((name, argv))
-    if pid in STORE:
+    if pid in STORE and not quick:
         base = int(os.environ.get("VERIF_SEED", "0") or 0)
         for s in range(N_SEEDS):
             jobs.append(("store-search", ["store-search", str(base * 1000 + s)]))
@@ -99,6 +104,8 @@ def bounded_search(pid, known_kinds):
                 if name == "store-search":
                     w["seed"] = argv[1]
                 findings.append(w)
+    if quick:
+        return {"label": "bounded (never counted as proved)", "runs": len(runs), "scenarios": runs, "findings": findings, "known_findings_reproduced": []}
     if pid in ("C01", "C02"):
         # the byte-level unit `log` sees bufio.rs only through shims: bounded Kani stand-in on the verbatim file
         import kani_standin
